@@ -296,6 +296,14 @@ func (wl *Wallet) build(stepIdx int, st *Step) *BuiltOp {
 	for salt := 0; clash(nextRec, sign, nextUpd) && salt < 50; salt++ {
 		nextRec.Idx = otherKeySameType(w, nextRec.Idx, salt).Idx
 	}
+	if st.NextUpdIsRevealed && kind == ref.Recover && st.Fault == ref.FNone && st.SignKey == 0 && d.Rec.Set && !viaClient {
+		// what the rules forbid is the revealed recovery key as next RECOVERY key, and equal next commitments; committing to the
+		// revealed recovery key as next UPDATE key is allowed (same key, same nonce: the two chains cross)
+		nextUpd = sign
+		nextUpd.Alg = 0
+		op.Builder = "raw"
+		w.T.Probe("revealed_recovery_key_as_next_update_key")
+	}
 	op.NextUpd, op.NextRec = nextUpd, nextRec
 
 	suffix := d.Suffix
